@@ -144,3 +144,61 @@ Example C19_access_example :
   existsb (fun r => public r) registered = true /\
   existsb (fun r => is_command r) registered = true.
 Proof. vm_compute. repeat split. Qed.
+
+(* ---- the tie to the source by translation (session 3, second wave): the
+   access decision regenerated from dawgie/security.py and dawgie/fe/basis.py
+   on every run (Gen/SecurityGen.v, tools/translate/security2coq.py) IS the
+   model the theorems above are about, for all arguments ---- *)
+From DV Require Gen.SecurityGen Proofs.SecurityGenEq.
+
+(* security.is_sanctioned, translated a second time by an independent
+   translator, is the decision function of Gen/AccessTable.v *)
+Theorem C19_is_sanctioned_is_source : forall (A : Type) clients e (c : option A),
+  SecurityGen.is_sanctioned clients e c = is_sanctioned clients e c.
+Proof. exact SecurityGenEq.is_sanctioned_gen_eq. Qed.
+Print Assumptions C19_is_sanctioned_is_source.
+
+(* security.sanctioned: try / bare except / False *)
+Theorem C19_sanctioned_is_source : forall (A : Type) (h : hook A) e c,
+  SecurityGen.sanctioned h e c = sanctioned h e c.
+Proof. exact SecurityGenEq.sanctioned_gen_eq. Qed.
+Print Assumptions C19_sanctioned_is_source.
+
+(* DynamicContent.__init__ (methods default) and DynamicContent.__render
+   (certificate extraction, check BEFORE the handler, method test) *)
+Theorem C19_render_is_source : forall (A : Type) (h : hook A) has_gpc tc uri ms m,
+  SecurityGen.init_methods ms = eff_methods ms /\
+  SecurityGenEq.to_outcome
+    (SecurityGen.render h has_gpc tc uri (SecurityGen.init_methods ms) m)
+  = render h has_gpc tc uri ms m.
+Proof.
+  intros. split; [apply SecurityGenEq.init_methods_gen_eq|apply SecurityGenEq.render_gen_eq].
+Qed.
+Print Assumptions C19_render_is_source.
+
+(* on the generated function itself: the handler is reached only after the
+   generated check answered yes for the certificate the transport gave *)
+Theorem C19_render_checked_is_source : forall (A : Type) (h : SecurityGen.hook A) has_gpc tc uri ms m,
+  SecurityGen.render h has_gpc tc uri ms m = SecurityGen.R_handler ->
+  SecurityGen.sanctioned h uri (if has_gpc then tc else None) = true.
+Proof. exact SecurityGenEq.render_gen_checked. Qed.
+Print Assumptions C19_render_checked_is_source.
+
+(* render_GET / render_POST / render_PUT / render_DELETE hand __render the
+   method Access.dispatch gives the verb; DAWGIE defines no other render_* *)
+Theorem C19_dispatch_is_source : forall v name,
+  SecurityGenEq.verb_name v = Some name ->
+  SecurityGenEq.assoc name SecurityGen.verb_table = dispatch v.
+Proof. exact SecurityGenEq.verb_table_gen_eq. Qed.
+Print Assumptions C19_dispatch_is_source.
+
+Example C19_source_example :
+  SecurityGen.render (A:=nat) (default_hook true) true None "/api/cmd/run"
+    (SecurityGen.init_methods [M_POST]) M_POST = SecurityGen.R_denied /\
+  SecurityGen.render (default_hook true) true (Some 3) "/api/cmd/run"
+    (SecurityGen.init_methods [M_POST]) M_POST = SecurityGen.R_handler /\
+  SecurityGen.render (A:=nat) (default_hook true) true None "/api/ae/name"
+    (SecurityGen.init_methods []) M_GET = SecurityGen.R_handler /\
+  SecurityGenEq.verb_name V_PUT = Some "PUT" /\
+  SecurityGen.identity (A:=nat) None (Some 1) = "".
+Proof. vm_compute. repeat split. Qed.
